@@ -217,7 +217,14 @@ class BitStore:
 
     def getslice_withstep_msb0(self, key: slice, /) -> BitStore:
         if self.modified_length is not None:
-            key = slice(*key.indices(self.modified_length))
+            start, stop, step = key.indices(self.modified_length)
+            if step < 0:
+                # indices() uses -1 for 'before the first bit', which means something else in a slice.
+                if start < 0:
+                    start = stop = 0
+                elif stop < 0:
+                    stop = None
+            key = slice(start, stop, step)
         return BitStore(self._bitarray.__getitem__(key))
 
     def getslice_withstep_lsb0(self, key: slice, /) -> BitStore:
